@@ -310,7 +310,16 @@ pub fn run_case(tape: &mut Tape, _tier: Tier, _p: &CaseParams) -> CaseOutcome {
     b.code_edges.retain(|k, _| reach.contains(k));
     b.redirects.retain(|k, _| reach.contains(k));
     out.count("direct_build_orphans_ignored", (before - b.entries.len()) as u64);
-    if let Some((class, what)) = structure_diff(&a, &b) {
+    if let Some((class, what, key)) = structure_diff(&a, &b) {
+      let class = if class.starts_with("entry-differs")
+        && key
+          .as_ref()
+          .is_some_and(|k| crate::checks::worlds::context_sensitive(&world, k))
+      {
+        format!("first-visitor-context:{}", class)
+      } else {
+        class
+      };
       // an entry that was a root of the original graph was loaded with the
       // root defaults (unknown media type taken as JavaScript, attribute-less
       // JSON accepted); a direct build of other roots meets it as a dependency
